@@ -13,6 +13,8 @@
 //!
 //! All random choices derive from the one `Rng` seeded from `--seed`.
 
+pub mod qty;
+
 use std::collections::{BTreeMap, HashSet};
 use std::fmt::Write as _;
 use std::fs::File;
